@@ -157,14 +157,17 @@ SPECS["C05"] = {
         {"engine": "kani", "group": "enc", "select": r"^c05_|^c03_decode_arbitrary|^c14_parse_len(8|9|11)$", "mem_gb": 10, "timeout": {"quick": 1800, "thorough": 3000},
          "thorough_only": r"len(14|17|19)$"},
         {"engine": "kani", "group": "ul", "select": r"^c25_(pdata_1pdv_p8|unknown_p8|release_rq_p5)$", "mem_gb": 12, "timeout": {"quick": 1800, "thorough": 3000}},
+        {"engine": "m", "module": "c05json"},
     ],
     "functions": ["dicom_core::value::deserialize::{parse_date, parse_date_partial, parse_time, parse_time_partial, parse_datetime_partial}", 
-                  "<Tag as FromStr>::from_str", "explicit LE/BE header decoders on arbitrary bytes", "dicom_ul::pdu::read_pdu on every strict prefix of small PDUs"],
+                  "<Tag as FromStr>::from_str", "explicit LE/BE header decoders on arbitrary bytes", "dicom_ul::pdu::read_pdu on every strict prefix of small PDUs",
+                  "dicom_json::de::<impl Visitor for DataElementVisitor<D>>::visit_map (Engine M)"],
     "bounds": "every byte string of the listed lengths (dates 0-10, times 1-14, date-times 4-19 bytes; tags 8, 9, 11 bytes; headers 12 bytes; PDU prefixes of 5-8 bytes); "
-              "no panic, overflow or out-of-bounds access (Kani's checks), every loop within its unwind bound",
-    "outside": "range parsers (> 10 GB / 15 min for 9 bytes), file opening / byte-source readers / collector (BufReader + global registry + dictionary), DICOM JSON text (serde_json), JPEG / deflate / RLE decoders (third-party or measured infeasible: RLE decode_frame 900 s without verdict), "
+              "no panic, overflow or out-of-bounds access (Kani's checks), every loop within its unwind bound; DICOM JSON: one data element object with 0..3 members chosen by the solver among "
+              "vr / Value / InlineBinary / BulkDataURI / other, in any order, 9 VR texts, serde_json::from_value and base64 decoding succeeding or failing: no call of core::panicking::* reachable",
+    "outside": "range parsers (> 10 GB / 15 min for 9 bytes), file opening / byte-source readers / collector (BufReader + global registry + dictionary), DICOM JSON beyond the member structure of one element (serde_json's own parsing, number/text conversion of Value items, nested sequences), JPEG / deflate / RLE decoders (third-party or measured infeasible: RLE decode_frame 900 s without verdict), "
                "data set readers on arbitrary streams and value readers for text VRs (measured > 8 GB), dump; attribute selectors",
-    "assumptions": ["Kani's panic / arithmetic overflow / bounds checks as the oracle"],
+    "assumptions": ["Kani's panic / arithmetic overflow / bounds checks as the oracle", "JSON: serde MapAccess, serde_json::from_value (Ok(empty list) | Err) and Engine::decode (Ok | Err) are contracts; error values are opaque"],
 }
 
 SPECS["C29"] = {
